@@ -5,6 +5,9 @@ mod pipeline;
 
 mod parser;
 
+#[cfg(kiki_verif)]
+pub mod verif_hooks;
+
 #[cfg(test)]
 mod tests;
 
